@@ -218,3 +218,12 @@ mutual
 end
 
 end Simpleline
+
+namespace Simpleline
+
+/-- `container.key_pattern = kp` on a list container (other widgets have no numbering to change) -/
+def Wd.setKp : Wd → Option KeyPat → Wd
+  | .list st cm c cw sp _ u nw items, kp => .list st cm c cw sp kp u nw items
+  | w, _ => w
+
+end Simpleline
